@@ -121,7 +121,10 @@ impl fmt::Display for ParserError {
             }
             ParserErrorKind::Converting(err) => write!(f, "{}", err),
             ParserErrorKind::Incomplete => {
-                write!(f, "unexpected end of code: the text could not be read entirely")
+                write!(
+                    f,
+                    "unexpected end of code: the text could not be read entirely"
+                )
             }
             ParserErrorKind::Internal(message) => {
                 write!(f, "the parser failed unexpectedly: {}", message)
